@@ -1,9 +1,85 @@
 import UvModel.DriverUtil
-/-! line-protocol driver modes for C15 (stub: no modes yet) -/
+import UvModel.FdLedger
+/-! line-protocol driver for C15: `uvdriver fdledger` reads the same program as harness/c15_sim.c
+    (ops + `fail <syscall> <occurrence> <errno>` lines) and prints the model's env/ret/cb/own lines. -/
 namespace Drivers.C15
-open UvModel.DriverUtil
+open UvModel.DriverUtil UvModel.FdLedger
 
-/-- (mode name, action).  `uvdriver <mode>` runs the action (normally `runLines init step`). -/
-def modes : List (String × IO Unit) := []
+def hid? (s : String) : Option Nat := if s.startsWith "h" then (s.drop 1).toNat? else none
+def fid? (s : String) : Option Nat := if s.startsWith "f" then (s.drop 1).toNat? else none
+
+def hkind? : String → Option HKind
+  | "tcp" => some .tcp | "udp" => some .udp | "unix" => some .pipe | _ => none
+
+def container? (s : String) : Option (Option (Sum Nat Nat)) :=
+  if s = "i" || s = "-" then some none
+  else match hid? s, fid? s with
+    | some h, _ => some (some (.inl h))
+    | _, some f => some (some (.inr f))
+    | _, _ => none
+
+def parseOp : List String → Option Op
+  | ["loop_init"] => some .loopInit
+  | ["loop_close"] => some .loopClose
+  | ["tcp_init", af] => if af = "inet" || af = "inet6" then some (.tcpInit true) else if af = "unspec" then some (.tcpInit false) else none
+  | ["pipe_init", n] => n.toNat?.map (fun k => .pipeInit (k != 0))
+  | ["udp_init", af] => if af = "inet" then some (.udpInit true) else if af = "unspec" then some (.udpInit false) else none
+  | ["tty_init", f] => (fid? f).map .ttyInit
+  | ["poll_init", f] => (fid? f).map .pollInit
+  | ["async_init"] => some .asyncInit
+  | ["signal_start", _] => some .signalStart
+  | ["fs_event_start", v] => if v = "ok" then some (.fsEventStart true) else if v = "bad" then some (.fsEventStart false) else none
+  | ["ufd", k] => some (.ufd k none)
+  | ["ufd", k, at_] => if at_.startsWith "at=" then (at_.drop 3).toNat?.map (fun n => .ufd k (some n)) else none
+  | ["uclose", f] => (fid? f).map .uclose
+  | ["open", h, f] => do some (.open_ (← hid? h) (← fid? f))
+  | ["bind", h, v] => do some (.bind (← hid? h) v 0)
+  | ["bind", h, v, o] => do some (.bind (← hid? h) v (← hid? o))
+  | ["listen", h] => (hid? h).map .listen
+  | ["policy", h, p] => do some (.policy (← hid? h) (if p = "accept" then 1 else 0))
+  | ["read_start", h] => (hid? h).map .readStart
+  | ["connect", h, t] => do some (.connect (← hid? h) (hid? t))
+  | ["accept", s, c] => do some (.accept (← hid? s) (← hid? c))
+  | ["close", h] => (hid? h).map .close
+  | ["run"] => some .run
+  | ["uv_pipe", _, _] => some .uvPipe
+  | ["uv_socketpair", _, _] => some .uvSocketpair
+  | ["fs_open", v] => some (.fsOpen v)
+  | ["fs_mkstemp"] => some .fsMkstemp
+  | ["fs_close", f] => (fid? f).map .fsClose
+  | ["fs_copyfile", v] => if v = "ok" then some (.fsCopyfile true) else if v = "missing" then some (.fsCopyfile false) else none
+  | "ipc_send" :: f :: h :: kinds => do
+      let ks ← kinds.mapM hkind?
+      some (.ipcSend (← fid? f) (← hid? h) ks)
+  | ["spawn", prog, c0, c2, c3] => do
+      let a ← container? c0
+      let b ← container? c2
+      let c ← container? c3
+      let ok ← if prog = "ok" then some true else if prog = "missing" then some false else none
+      some (.spawn ok ([a, none, b] ++ (if c3 = "-" then [] else [c])))
+  | ["end"] => some .end_
+  | _ => none
+
+structure DS where
+  s : St := {}
+  inj : Inj := []
+
+def stepLine (d : DS) (ws : List String) : DS × List String :=
+  match ws with
+  | [] => (d, [])
+  | "fail" :: name :: k :: e :: [] => ({ d with inj := d.inj ++ [(name, nat! k, nat! e)] }, [])
+  | w :: _ =>
+    if w.startsWith "#" then (d, []) else
+    let hdr := "op " ++ " ".intercalate ws
+    match parseOp ws with
+    | none => ({ d with inj := [] }, [hdr, "bad-op", ownLine d.s])
+    | some op =>
+      let s0 : St := { d.s with l := { d.s.l with out := [] } }
+      let s1 := step s0 d.inj op
+      let lines := s1.l.out.reverse
+      let quiet := match op with | .policy _ _ => !lines.contains "bad-op" | _ => false
+      ({ s := s1, inj := [] }, if quiet then [hdr] else [hdr] ++ lines ++ [ownLine s1])
+
+def modes : List (String × IO Unit) := [("fdledger", runLines ({} : DS) stepLine)]
 
 end Drivers.C15
